@@ -805,8 +805,23 @@ fn apply_tamper(t: &Tamper, tx: &Transaction, bytes: &[u8]) -> Option<Vec<u8>> {
         _ => {}
     }
     let mut tx = tx.clone();
+    let applied = edit_typed(t, &mut tx);
+    if let Tamper::BodyByte { off, xor } = t {
+        // the body sits right after the 8-byte discriminant
+        let p = 8 + (*off as usize % out.len().saturating_sub(8).max(1));
+        if p < out.len() && *xor != 0 {
+            out[p] ^= *xor;
+            return Some(out);
+        }
+        return None;
+    }
+    if applied { Some(tx.to_bytes()) } else { None }
+}
+
+/// The typed rewrites, applied to the value in place (whatever cache it carries stays).
+fn edit_typed(t: &Tamper, tx: &mut Transaction) -> bool {
     let mut applied = false;
-    each_chargeable!(&mut tx, x => {
+    each_chargeable!(tx, x => {
         match t {
             Tamper::PredicateByte { input, off, xor } => {
                 if let Some(code) = x.inputs_mut().get_mut(*input as usize).and_then(predicate_code_mut) {
@@ -883,16 +898,7 @@ fn apply_tamper(t: &Tamper, tx: &Transaction, bytes: &[u8]) -> Option<Vec<u8>> {
             Tamper::BodyByte { .. } | Tamper::FlipBit { .. } | Tamper::SetWord { .. } => {}
         }
     }, {});
-    if let Tamper::BodyByte { off, xor } = t {
-        // the body sits right after the 8-byte discriminant
-        let p = 8 + (*off as usize % out.len().saturating_sub(8).max(1));
-        if p < out.len() && *xor != 0 {
-            out[p] ^= *xor;
-            return Some(out);
-        }
-        return None;
-    }
-    if applied { Some(tx.to_bytes()) } else { None }
+    applied
 }
 
 /// O5. Returns true when the run must stop.
@@ -954,6 +960,39 @@ fn judge_tamper(ti: usize, t: &Tamper, accepted: &Transaction, id: &[u8; 32], en
         u64::from_le_bytes(id2[..8].try_into().unwrap_or([0; 8])),
     );
     ctx.note(|| format!("tamper {ti} {t:?}: id changed {}, signed inputs {signed}, check_signatures {:?}, pipeline {:?}", id2 != *id, sig.as_ref().map_err(|e| format!("{e:?}")), pipeline));
+    // The same edit made in place on the accepted value (which carries its cached id and
+    // offsets) and re-checked must be judged exactly like the copy that came over the wire.
+    if !matches!(t, Tamper::FlipBit { .. } | Tamper::SetWord { .. } | Tamper::BodyByte { .. }) {
+        let mut inplace = accepted.clone();
+        if edit_typed(t, &mut inplace) {
+            ctx.stats.inc("fault.tamper_in_place");
+            let wire = tx2.clone().into_checked_basic(h, &env.cp).map(|c| {
+                let id: [u8; 32] = *c.id();
+                (id, c.check_signatures(&env.chain_id).is_ok())
+            });
+            let mem = inplace.into_checked_basic(h, &env.cp).map(|c| {
+                let id: [u8; 32] = *c.id();
+                (id, c.check_signatures(&env.chain_id).is_ok())
+            });
+            let same = match (&wire, &mem) {
+                (Ok(a), Ok(b)) => a == b,
+                (Err(a), Err(b)) => format!("{a:?}") == format!("{b:?}"),
+                _ => false,
+            };
+            ctx.event("tamper-in-place", ti as u64, same as u64);
+            if !same {
+                let show = |r: &Result<([u8; 32], bool), CheckError>| match r {
+                    Ok((id, ok)) => format!("id {} signatures ok={ok}", hex::encode(id)),
+                    Err(e) => format!("rejected: {e:?}"),
+                };
+                return ctx.violate(
+                    "tamper-in-place",
+                    "tamper-in-place:differs-from-wire",
+                    format!("tamper {t:?} applied in place to the accepted transaction and re-checked gives [{}], the same content decoded from bytes gives [{}]", show(&mem), show(&wire)),
+                );
+            }
+        }
+    }
     if id2 == *id {
         ctx.stats.inc("probe.tamper_same_id");
         return false;
